@@ -21,6 +21,19 @@ CLAIMED = {
         "technique": "forward data+control dependency analysis over typed HIR (operand relevance, strong kills, read-before-write)",
         "design_ref": "DESIGN.md §3 R-DEPEND, §4 C08",
     },
+    "C09": {
+        "text": "Decides the range clauses for every modulus below 2^61 by abstract interpretation of the transform core's "
+                "source over k*q intervals: the forward and inverse butterfly invariants are inductive below 8q from "
+                "canonical and documented lazy inputs, no addition can wrap 2^64 and no subtraction can underflow, the "
+                "non-lazy forms end in [0,q) and the lazy forms inside their documented ranges; the NTT wrappers reach "
+                "the transform of their direction and laziness; the random start of the primitive-root search is confined "
+                "to a minimum over a start-independent set (who-may-call + scan shape), so the root is deterministic.",
+        "note": _TB + "External fact used: multiply_u64operand_mod_lazy returns a value below 2q (its documented contract, "
+                "covered structurally by C08). Not decided: that the transform is the evaluation map in bit-reversed "
+                "order, invertibility, the convolution property.",
+        "technique": "interval abstract interpretation (multiples of a symbolic modulus) of source + who-may-call",
+        "design_ref": "DESIGN.md §3 R-RANGE, §4 C09",
+    },
     "C11": {
         "text": "Decides the inverse-pair structure of the batch encoder: encode scatters and decode gathers through "
                 "the same index-map field with the loop variable as index; the tail beyond the input is zero-filled "
@@ -204,7 +217,7 @@ _NYB = "rules designed (DESIGN.md §4) but not built yet in this tree; not claim
 NOT_APPLICABLE = {
     "C07": "every clause compares a reported integer with exact big-integer arithmetic on runtime phase/noise "
            "values; no necessary condition is visible in the shape of the code (DESIGN.md §5)",
-    "C09": _NYB, "C10": _NYB,
+    "C10": _NYB,
     "C19": "every clause is about where coefficients land as a function of runtime indices and counts; static "
            "shape rules do not bound them (DESIGN.md §5)",
 }
